@@ -54,6 +54,7 @@ def run(chk):
     chk.section("lemma", lambda: lemma_section(chk))
     chk.section("analyze", lambda: analyze_section(chk))
     chk.section("check_bb", lambda: check_bb_section(chk))
+    chk.section("check_cfg", lambda: check_cfg_section(chk))
     n = 16
     for i in range(n):
         chk.section(f"bounded-{i}", lambda i=i: bounded_section(chk, i, n))
@@ -267,6 +268,119 @@ def check_bb_section(chk):
                                 paths, post, func=f"{CHK}:check_bb", replay=lambda m_: {"script": ORACLE + REPLAY_ONE, "input": {"prog": [["use", "h"], ["asg", "h", "int"]]}})
                 n_obl += 1
     chk.record("check_bb:all-membership-combinations-explored", n_obl >= 300, str(n_obl), kind="reachability")
+    chk.use_engine(e)
+
+
+# ------------------------------------------------------------------------------ check_cfg
+def check_cfg_section(chk):
+    """The traversal contract of check_cfg that the lemma assumes, on every CFG shape with the
+    blocks {entry, A, B, exit}, successor lists of length <= 2 and an optional dummy successor of
+    the entry block (2,197 x 2 shapes): with check_bb / check_rows_match replaced by recorders,
+      (a) every block reachable from the entry is checked exactly once, with the row its BFS
+          parent hands over on the connecting edge;
+      (b) every other edge leaving a checked block is matched: the row on that edge against the
+          input row the target was checked with;
+      (c) nothing else is checked or matched."""
+    import itertools
+    e = mk_engine(chk)
+    e.func_info(CHK, "check_cfg")
+    m = e.module(CHK)
+    names = ["entry", "A", "B", "exit"]
+    succ_opts = [()] + [(x,) for x in (1, 2, 3)] + [(x, y) for x in (1, 2, 3) for y in (1, 2, 3)]
+    n_shapes = 0
+    shapes = list(itertools.product(succ_opts, repeat=3))
+    if chk.tier != "thorough":
+        shapes = [s for i, s in enumerate(shapes) if i % 5 == 0 or len(s[0]) == 2]
+    for shape in shapes:
+        for dummy in ((), (2,)):
+            def t(it, shape=shape, dummy=dummy):
+                f = it.lookup_global(m, "check_cfg")
+                BBc = ClassVal("BB", builtin=True)
+                bbs = [SObj(BBc, {"idx": i, "name": names[i]}) for i in range(4)]
+                succs = {0: shape[0], 1: shape[1], 2: shape[2], 3: ()}
+                reach, todo = set(), [0]
+                while todo:
+                    b = todo.pop()
+                    if b in reach:
+                        continue
+                    reach.add(b)
+                    todo += list(succs[b])
+                # precondition, from CFGBuilder.build's pruning loop (the only producer of CFGs): no dummy
+                # edge enters a reachable block and no unreachable block jumps into a reachable one
+                if any(d in reach for d in dummy) or any(s in reach for b in range(4) if b not in reach for s in succs[b]):
+                    return None
+                for i, b in enumerate(bbs):
+                    b.fields.update({"successors": [bbs[j] for j in succs[i]], "dummy_successors": [bbs[j] for j in dummy] if i == 0 else [], "reachable": i in reach,
+                                     "is_exit": i == 3, "predecessors": []})
+                log = []
+                CB = ClassVal("CheckedBBStub", builtin=True)
+
+                def check_bb(it2, a, k):
+                    bb, ccfg, row = a[0], a[1], a[2]
+                    log.append(("check", bb.fields["idx"], row))
+                    i = bb.fields["idx"]
+                    sig = SObj(ClassVal("Sig", builtin=True), {"input_row": row, "output_rows": [("row", i, j) for j in range(len(bb.fields["successors"]))],
+                                                                "dummy_output_rows": [("drow", i, j) for j in range(len(bb.fields["dummy_successors"]))]})
+                    return SObj(CB, {"idx": i, "sig": sig, "predecessors": [], "successors": [None] * len(bb.fields["successors"]), "reachable": bb.fields["reachable"]})
+                e.models[f"{CHK}:check_bb"] = check_bb
+                e.models[f"{CHK}:check_rows_match"] = lambda it2, a, k: log.append(("match", a[0], a[1], a[2].fields["idx"]))
+                e.models[f"{CHK}:CheckedBB"] = lambda it2, a, k: SObj(CB, {"idx": a[0], "sig": k.get("sig"), "predecessors": [], "successors": [], "reachable": k.get("reachable")})
+                e.models["guppylang_internals.checker.linearity_checker:check_cfg_linearity"] = lambda it2, a, k: ("LINEARITY-CHECKED", a[0])
+                e.models["guppylang_internals.checker.unitary_checker:check_cfg_unitary"] = lambda it2, a, k: None
+                cfg = SObj(ClassVal("CFG", builtin=True), {"bbs": bbs, "entry_bb": bbs[0], "exit_bb": bbs[3], "analyze": Builtin("analyze", lambda *a: None),
+                                                           "live_before": {b: {} for b in bbs}, "ass_before": {b: set() for b in bbs}, "maybe_ass_before": {b: set() for b in bbs},
+                                                           "unitary_flags": "FLAGS"})
+                res = it.call(f, [cfg, [], "RET", {}, "fname", "GLOBALS"], {})
+                return log, succs, dummy, reach, res
+            paths = e.explore(t)
+            if len(paths) == 1 and paths[0].kind == "return" and paths[0].value is None:
+                continue          # shape outside the builder's invariant
+
+            def post(p):
+                if p.kind != "return":
+                    return z3.BoolVal(False)
+                log, succs, dummy, reach, res = p.value
+                checks = [x for x in log if x[0] == "check"]
+                matches = [x for x in log if x[0] == "match"]
+                # edges leaving checked blocks (dummy successors only for the entry block, as enqueued by check_cfg)
+                visited, todo = set(), [0] + list(dummy)
+                while todo:
+                    b = todo.pop()
+                    if b not in visited:
+                        visited.add(b)
+                        todo += list(succs[b])
+                edges = [(("row", pblk, j), s) for pblk in sorted(visited) for j, s in enumerate(succs[pblk])] + [(("drow", 0, j), s) for j, s in enumerate(dummy)]
+                targets = {s for _, s in edges} | {0}
+                checked = [c[1] for c in checks]
+                ok = sorted(checked) == sorted(targets) and checks[0][1] == 0 and checks[0][2] == []
+                row_of = {c[1]: c[2] for c in checks}
+                used = []
+                for blk in targets - {0}:
+                    cand = [r for r, s in edges if s == blk and r == row_of.get(blk)]
+                    ok = ok and len(cand) >= 1
+                    used.append((row_of.get(blk), blk))
+                rest = [(r, s) for r, s in edges if (r, s) not in used]
+                ok = ok and sorted((mm[1], mm[3]) for mm in matches) == sorted(rest) and all(mm[2] == row_of.get(mm[3]) for mm in matches)
+                # (d) the result handed to the linearity checker: the reachable blocks plus the exit block,
+                #     in cfg.bbs order, linked along exactly the edges between reachable blocks
+                ok = ok and isinstance(res, tuple) and res[0] == "LINEARITY-CHECKED"
+                if ok:
+                    ccfg = res[1]
+                    out = ccfg.fields.get("bbs")
+                    ok = [b.fields["idx"] for b in out] == [i for i in range(4) if i in reach or i == 3]
+                    by = {b.fields["idx"]: b for b in out}
+                    ok = ok and ccfg.fields.get("entry_bb") is by.get(0) and ccfg.fields.get("exit_bb") is by.get(3)
+                    for pblk in sorted(reach):
+                        ok = ok and [x.fields["idx"] if x is not None else None for x in by[pblk].fields["successors"]] == list(succs[pblk])
+                        ok = ok and all(x is by[x.fields["idx"]] for x in by[pblk].fields["successors"])
+                        preds = sorted(q for q in reach for s in succs[q] if s == pblk)
+                        ok = ok and sorted(x.fields["idx"] for x in by[pblk].fields["predecessors"]) == preds
+                return z3.BoolVal(bool(ok))
+            nm =";".join(names[i] + "->" + (",".join(names[j] for j in shape[i]) or "-") for i in range(3)) + (";entry~>B" if dummy else "")
+            chk.prove_paths(f"check_cfg[{nm}]:every-reachable-block-checked-once-with-its-BFS-parent's-row/\\every-other-edge-matched-against-the-target's-input-row/\\nothing-else",
+                            paths, post, func=f"{CHK}:check_cfg")
+            n_shapes += 1
+    chk.record("check_cfg:shapes-explored", n_shapes >= 400, str(n_shapes), kind="reachability")
     chk.use_engine(e)
 
 
